@@ -83,6 +83,9 @@ def mechanism(draw, closed_loops=True, point_masses=True, conservative=False, ma
                        "axis": draw(st.integers(0, 2)),
                        "r_OJ0": [0.2 + 1.2 * i + draw(gen.f(-0.1, 0.1)), draw(gen.f(-0.1, 0.1)), draw(gen.f(-0.1, 0.1))],
                        "psi_J": draw(gen.rotvec(min_exp=-2, near_max=False)), "angle0": 0.0})
+    if kind == "chain" and draw(st.integers(0, 5)) == 0:
+        # the last joint sits exactly at the centre of mass of the body it carries
+        joints[-1]["r_OJ0"] = list(bodies[-1]["r"])
     spec.update(bodies=bodies, joints=joints, rate=draw(gen.f(-2, 2)))
     if kind == "loop":
         # mobility 12 - 5 (or 3) - 3 - 3 >= 1: no redundant constraints (a redundant loop makes every solver's
@@ -118,7 +121,9 @@ def mechanism(draw, closed_loops=True, point_masses=True, conservative=False, ma
                              "k": draw(gen.f(2, 30)), "d": draw(gen.f(0.5, 5))}
     if draw(st.booleans()):
         spec["spring"] = {"k": draw(gen.f(5, 60)), "l_ref": draw(gen.f(0.5, 2.0)) if conservative or draw(st.integers(0, 2)) else None,
-                          "B2": draw(gen.vec3(-2, -0.7)),
+                          # attached at an eccentric point or at the centre of mass; force form or compliance form
+                          "B2": draw(gen.vec3(-2, -0.7)) if draw(st.integers(0, 3)) else [0.0, 0.0, 0.0],
+                          "compliance": draw(st.integers(0, 2)) == 0,
                           "d": 0.0 if conservative else draw(st.sampled_from([0.0, 0.0, 0.5]))}
     return spec
 
@@ -186,7 +191,7 @@ def build_mechanism(spec, t0=0.0, state=None, consistent=True, opts=None):
             tpi = sysbuild.make_tpi({"B1": [0.0, 0.0, 1.5], "B2": sp["B2"], "name": "tpi"}, system.origin, bodies[-1])
             system.add(tpi)
             es = {"type": "KelvinVoigt" if sp["d"] > 0 else "Spring", "k": sp["k"], "d": sp["d"], "l_ref": sp["l_ref"],
-                  "compliance": False}
+                  "compliance": bool(sp.get("compliance", False))}
             system.add(sysbuild.make_force_law(es, tpi))
         if "drive" in spec:
             dr = spec["drive"]
@@ -250,6 +255,9 @@ def scene(draw, max_spheres=3, sphere_sphere=True, force_free=None, frictionless
                 a["v"][0] = abs(a["v"][0]) + 0.5
                 b["v"][0] = -abs(b["v"][0]) - 0.5
                 a["r"][2] = b["r"][2] = max(a["r"][2], b["r"][2])
+    if not force_free and draw(st.integers(0, 3)) == 0:
+        # the plane moves along its normal with non-uniform velocity: z(t) = c1 t + a sin(w t)  (rheonomic contact)
+        spec["plane_motion"] = {"c1": draw(gen.f(-0.5, 0.5)), "a": draw(gen.f(-0.1, 0.1)), "w": draw(gen.f(1.0, 6.0))}
     return spec
 
 
@@ -259,11 +267,26 @@ def build_scene(spec, t0=0.0, opts=None, consistent=True):
     from cardillo.forces import Force
 
     system = sysbuild.new_system(t0)
-    ground = Frame(name="ground")
+    pm = spec.get("plane_motion")
+    vz0 = 0.0
+    if pm:
+        c1, a_, w_ = pm["c1"], pm["a"], pm["w"]
+        ez = np.array([0.0, 0.0, 1.0])
+        ground = Frame(r_OP=lambda t: ez * (c1 * t + a_ * np.sin(w_ * t)), r_OP_t=lambda t: ez * (c1 + a_ * w_ * np.cos(w_ * t)),
+                       r_OP_tt=lambda t: -ez * a_ * w_ * w_ * np.sin(w_ * t), name="ground")
+        vz0 = c1 + a_ * w_ * np.cos(w_ * t0)
+        z0 = c1 * t0 + a_ * np.sin(w_ * t0)
+    else:
+        ground = Frame(name="ground")
     system.add(ground)
     g = np.array(spec["gravity"], dtype=float)
     bodies, contacts = [], []
     for i, s in enumerate(spec["spheres"]):
+        if pm:
+            # the generated heights and vertical velocities are relative to the plane
+            s = dict(s)
+            s["r"] = [s["r"][0], s["r"][1], s["r"][2] + z0]
+            s["v"] = [s["v"][0], s["v"][1], s["v"][2] + vz0]
         if s["rigid"]:
             th = 0.4 * s["mass"] * s["radius"] ** 2 * np.eye(3)
             if s.get("inertia"):
